@@ -43,7 +43,7 @@ def _lost_mutation(runs):
 
 def run(sc, tier, replay):
     off = ["noroottypename", "nodupkey", "nodirid", "nofragdirs"]
-    strata = {"core": (off + ["noqueries", "oddids"], 0.6),
+    strata = {"core": (off + ["noqueries", "oddids", "richargs"], 0.6),
               "core-faults": (off + ["noqueries"], 0.2, "faults"),
               "abstract": (off + ["noqueries", "abstract"], 0.2)}
     return fedcheck.run_fed_check(
